@@ -472,10 +472,6 @@ impl<R: Read, TSpec> TagIterator<R, TSpec>
                         data_start: next_tag.data_start,
                     });
 
-                    if self.tag_ids_to_buffer.contains(&tag_id) {
-                        self.buffer_master(tag_id, next_tag.tag_start);
-                        return;
-                    }
                 }
             }
 
@@ -487,27 +483,39 @@ impl<R: Read, TSpec> TagIterator<R, TSpec>
         }
     }
 
-    fn buffer_master(&mut self, tag_id: u64, tag_start: usize) {
-        let pre_queue_len = self.emission_queue.len();
+    ///
+    /// Replaces the `Master::Start` at the front of the emission queue (and everything up to its matching `Master::End`) with a single `Master::Full`.
+    ///
+    /// Returns `false` if the end of the master has not been read yet and the source has no more data at the moment - the queue is left untouched so that buffering can continue later.
+    ///
+    fn buffer_master(&mut self) -> bool {
+        let (tag_id, tag_start) = match self.emission_queue.front() {
+            Some(Ok((tag, tag_start))) => (tag.get_id(), *tag_start),
+            _ => return true,
+        };
 
-        let mut position = pre_queue_len;
+        // Masters can be nested in themselves, so count unmatched starts of the same id
+        let mut nested = 0;
+        let mut position = 1;
         'endTagSearch: loop {
             if position >= self.emission_queue.len() {
                 self.read_next();
-    
+
                 if position >= self.emission_queue.len() {
-                    self.emission_queue.push_back(Err(TagIteratorError::UnexpectedEOF{ tag_start, tag_id: Some(tag_id), tag_size: None, partial_data: None }));
-                    return;
+                    return false;
                 }
             }
 
             while position < self.emission_queue.len() {
-                if let Some(r) = self.emission_queue.get(position) {
-                    match r {
-                        Err(_) => break 'endTagSearch,
-                        Ok(t) => {
-                            if t.0.get_id() == tag_id && matches!(t.0.as_master(), Some(Master::End)) {
-                                break 'endTagSearch;
+                match &self.emission_queue[position] {
+                    Err(_) => break 'endTagSearch,
+                    Ok(t) => {
+                        if t.0.get_id() == tag_id {
+                            match t.0.as_master() {
+                                Some(Master::Start) => nested += 1,
+                                Some(Master::End) if nested == 0 => break 'endTagSearch,
+                                Some(Master::End) => nested -= 1,
+                                _ => {},
                             }
                         }
                     }
@@ -516,16 +524,15 @@ impl<R: Read, TSpec> TagIterator<R, TSpec>
             }
         }
 
-        let mut children = self.emission_queue.split_off(pre_queue_len);
-        let split_to = position - pre_queue_len;
-        if children.get(split_to).unwrap().is_ok() {
-            let remaining = children.split_off(split_to).into_iter().skip(1);
-            let full_tag = Self::roll_up_children(tag_id, children.into_iter().map(|c| c.unwrap().0).collect());
-            self.emission_queue.push_back(Ok((full_tag, tag_start)));
-            self.emission_queue.extend(remaining);
+        if self.emission_queue[position].is_ok() {
+            let children = self.emission_queue.drain(..=position).skip(1).take(position - 1).map(|c| c.unwrap().0).collect();
+            let full_tag = Self::roll_up_children(tag_id, children);
+            self.emission_queue.push_front(Ok((full_tag, tag_start)));
         } else {
-            self.emission_queue.extend(children.drain(split_to..).take(1));
+            // The master could not be read completely - only the error is emitted
+            self.emission_queue.drain(..position);
         }
+        true
     }
 
     fn roll_up_children(tag_id: u64, children: Vec<TSpec>) -> TSpec {
@@ -591,6 +598,9 @@ impl<R: Read, TSpec> Iterator for TagIterator<R, TSpec>
     fn next(&mut self) -> Option<Self::Item> {
         if self.emission_queue.is_empty() {
             self.read_next();
+        }
+        if matches!(self.emission_queue.front(), Some(Ok((tag, _))) if matches!(tag.as_master(), Some(Master::Start)) && self.tag_ids_to_buffer.contains(&tag.get_id())) && !self.buffer_master() {
+            return None;
         }
         let next_item = self.emission_queue.pop_front();
         if let Some(Ok(ref tuple)) = next_item {
